@@ -9,6 +9,7 @@ import (
 	"strings"
 
 	metav1 "k8s.io/apimachinery/pkg/apis/meta/v1"
+	"k8s.io/apimachinery/pkg/runtime/schema"
 
 	corev1alpha1 "package-operator.run/apis/core/v1alpha1"
 	"package-operator.run/internal/packages/zzverif/checks"
@@ -42,10 +43,13 @@ type scenario struct {
 	Foreground bool `json:"foreground"`
 	// Sliced: every phase keeps all its objects in an ObjectSlice (nothing inline)
 	Sliced bool `json:"sliced"`
+	// Graceful: Gadgets outlive their delete without any finalizer (like a Pod in graceful
+	// termination) until the kubelet is done with them
+	Graceful bool `json:"graceful"`
 }
 
 func (sc scenario) name() string {
-	return fmt.Sprintf("B1 phases=%d delegated=%03b archive=%v holds=%v restarts=%d takeover=%v conflicts=%d rearchive=%v admissionFaults=%d foreground=%v sliced=%v", sc.N, sc.Mask, sc.Archive, sc.Holds, sc.Restarts, sc.TakeOver, sc.Conflicts, sc.Rearchive, sc.AdmissionFaults, sc.Foreground, sc.Sliced)
+	return fmt.Sprintf("B1 phases=%d delegated=%03b archive=%v holds=%v restarts=%d takeover=%v conflicts=%d rearchive=%v admissionFaults=%d foreground=%v sliced=%v graceful=%v", sc.N, sc.Mask, sc.Archive, sc.Holds, sc.Restarts, sc.TakeOver, sc.Conflicts, sc.Rearchive, sc.AdmissionFaults, sc.Foreground, sc.Sliced, sc.Graceful)
 }
 
 func system(sc scenario) *world.System {
@@ -59,6 +63,9 @@ func system(sc scenario) *world.System {
 				w.LongLived()
 				w.Budget["unarchive"] = 1
 				w.Budget["rearchive"] = 1
+			}
+			if sc.Graceful {
+				w.S.Graceful = map[schema.GroupKind]bool{{Group: world.TestGroup, Kind: "Gadget"}: true}
 			}
 			ps := osw.PhaseSpecs(cfg, 1)
 			if sc.Sliced {
@@ -156,6 +163,15 @@ func system(sc scenario) *world.System {
 				}
 			}
 			evs = append(evs, osw.ReconcileEvents(w)...)
+			for _, k := range w.S.SortedKeys() {
+				if o := w.S.Objs[k]; w.S.Graceful[k.GK()] && kmodel.Terminating(o.Content) && len(kmodel.Finalizers(o.Content)) == 0 {
+					k := k
+					evs = append(evs, world.Event{Name: "kubelet:finished:" + k.Kind + "/" + k.Name, Apply: func(w *world.World) *world.Pass {
+						w.S.FinishGraceful(k)
+						return nil
+					}})
+				}
+			}
 			evs = append(evs, osw.ReleaseEvents(w)...)
 			evs = append(evs, osw.GCEvent(w)...)
 			evs = append(evs, osw.CrashEvents(w)...)
@@ -286,6 +302,13 @@ func Check(before *world.World, _ world.Event, pass *world.Pass, after *world.Wo
 			continue
 		}
 		if r.Verb == "delete" && r.Key != osKey {
+			if phaseIdx >= 0 && osw.HasFinalizer(os.Content, "foregroundDeletion") {
+				// foreground cascade: the garbage collector deletes the dependents itself, the
+				// ObjectSetPhase among them and in no particular order; the phase controller then
+				// honours the deletion of its own object. Who deletes what when is the collector's
+				// doing, not an order the ObjectSet's teardown chose.
+				continue
+			}
 			k := phaseOf(r.Key)
 			if phaseIdx >= 0 {
 				k = phaseIdx
@@ -378,9 +401,11 @@ func scenarios(quick bool) []scenario {
 			out = append(out, scenario{N: 3, Mask: m, Archive: arch, Holds: []string{"c", "b"}, Restarts: 1, TakeOver: true, Conflicts: 1})
 		}
 		if arch {
+			out = append(out, scenario{N: 2, Mask: 0, Archive: true, Graceful: true, Conflicts: 1}, scenario{N: 3, Mask: 0b010, Archive: true, Graceful: true})
 			out = append(out, scenario{N: 2, Mask: 0, Archive: true, Holds: []string{"b"}, Sliced: true, Restarts: 1}, scenario{N: 2, Mask: 0b01, Archive: true, Holds: []string{"g"}, Sliced: true})
 			out = append(out, scenario{N: 2, Mask: 0, Archive: true, Holds: []string{"a"}, Rearchive: true})
 		} else {
+			out = append(out, scenario{N: 2, Mask: 0, Graceful: true, Restarts: 1}, scenario{N: 2, Mask: 0b10, Holds: []string{"b"}, Graceful: true})
 			out = append(out, scenario{N: 2, Mask: 0, Holds: []string{"b"}, Sliced: true, Restarts: 1}, scenario{N: 2, Mask: 0b10, Holds: []string{"a"}, Sliced: true})
 			out = append(out, scenario{N: 2, Mask: 0, Holds: []string{"b"}, Foreground: true, Restarts: 1}, scenario{N: 2, Mask: 0b10, Holds: []string{"a", "g"}, Foreground: true})
 		}
@@ -405,7 +430,7 @@ func scenarios(quick bool) []scenario {
 
 func run(o checks.Opts) *report.Report {
 	rep := report.New("C04", "bfs")
-	rep.Rule = "explicit-state BFS to closure from the fully rolled-out state (phases inline, or every phase entirely in an ObjectSlice): user deletes (background, or foreground propagation with the garbage collector deleting dependents itself) or archives the ObjectSet, then reconcile(ObjectSet / each ObjectSetPhase), finalizer holder releasing foreign finalizers, garbage collector, third party making another ObjectSet the controller of b, (budgeted) an operator crash before request i of a pass for every i, and (budgeted) another actor's write to the target landing just before write i of a pass for every i (delete precondition / update conflict); (budgeted) admission for one managed object starting to answer every write and dry run with a reason-less 500 and healing again, (one system: all passes in one long-lived operator process, the archived ObjectSet set back to Active and archived again); monitors on every delete / finalizer removal / Archived=True write and an invariant on every state"
+	rep.Rule = "explicit-state BFS to closure from the fully rolled-out state (phases inline, or every phase entirely in an ObjectSlice): user deletes (background, or foreground propagation with the garbage collector deleting dependents itself) or archives the ObjectSet, then reconcile(ObjectSet / each ObjectSetPhase), finalizer holder releasing foreign finalizers, (some systems) Gadgets that outlive their delete without any finalizer until the kubelet is done with them, garbage collector, third party making another ObjectSet the controller of b, (budgeted) an operator crash before request i of a pass for every i, and (budgeted) another actor's write to the target landing just before write i of a pass for every i (delete precondition / update conflict); (budgeted) admission for one managed object starting to answer every write and dry run with a reason-less 500 and healing again, (one system: all passes in one long-lived operator process, the archived ObjectSet set back to Active and archived again); monitors on every delete / finalizer removal / Archived=True write and an invariant on every state"
 	scs := scenarios(o.Quick())
 	rep.Bounds["systems"] = len(scs)
 	for i, sc := range scs {
